@@ -69,6 +69,7 @@
 #define VG_DEC_OK     (VG_STRUCT_OK && VG_SCALARS_OK)
 #define VG_DEC_RUN    (VG_STRUCT_OK && VG_RUNNING)
 
+int vg_nc, vg_ml;   /* ghost: num_codes / min_code_length as read by read_code_tree */
 #include "lib/pm2_decoder.c"
 
 TreeElement *const vg_bt_tree = VG_BT_ARRAY;
